@@ -11,6 +11,10 @@ MC  : MC_Zerv over ZervModel - the action property HigherLevelsUnchanged for eve
       integers: Apalache checks the action invariant (higher levels unchanged, lower levels reset
       on a bump, nothing reset without a bump) from an arbitrary state for all override / bump
       values; MC_ResetLawLink (TLC) shows every ResetLaw transition equals ZervOps!ProcByName.
+      BigNum.tla / Trace_BigBump: the law on decimal texts for tags whose numbers are arbitrary u64
+      values (2^31, 2^32, 2^53, 2^63, 2^64 - 1 and neighbours): the addressed level becomes
+      override-or-current + bump, higher levels unchanged, lower levels reset; a sum beyond u64 and
+      a flag amount beyond u32 (the flags' type) are refused.
 Gen : one REPLAY line per behaviour; the harness turns the arguments into a real argv (flag
       order shuffled twice, optional-value and = forms varied, tag in SemVer or PEP 440
       spelling), runs clap + run_version_pipeline with --output-format zerv and compares every
@@ -119,6 +123,23 @@ def run(tier):
         for i, ev in bad:
             v.add([dict(key=trace_key(ev), line=i, trace=path, argv=ev["argv"], observed=ev["out"])])
     core.log("  validated %d recorded runs, %d rejected" % (tev, tbad))
+    # the same law at the top of the number range (values 2^31 .. 2^64 as decimal texts, BigNum.tla)
+    nbig = 6000 if tier == "quick" else 60000
+    bev = bbad = 0
+    for k in range(0, nbig, 6000):
+        path = os.path.join(core.BUILD, "c05-big-%d.ndjson" % k)
+        core.zv(["record", "bigbump", core.seed() * 1000 + 700 + k // 6000, 6000, path])
+        events, bad, tr = core.trace_validate("Trace_BigBump", path, "c05-big")
+        bev += len(events)
+        bbad += len(bad)
+        states += tr["distinct"]
+        trans += tr["states"]
+        for i, ev in bad:
+            v.add([dict(key="C05:panic" if ev.get("_reason") == "panic" else "C05:big-number-" + ev.get("_reason", "?"), line=i, trace=path, argv=ev["argv"],
+                        observed=dict(kind=ev["out"]["kind"], text=ev["out"].get("text", "")[:200], values=[core.cp_text(x) for x in ev["out"]["v"]]))])
+    tev += bev
+    tbad += bbad
+    core.log("  validated %d runs with u64-range numbers (Trace_BigBump), %d rejected" % (bev, bbad))
     cov = dict(states=states, transitions=trans, traces_validated_against_impl=evals + tev, samples=samples,
                evaluations=evals + tev, distinct_nontrivial=nontrivial,
                rule="Gen: every behaviour of ZervModel in three argument spaces: names = all subsets of "
